@@ -121,6 +121,31 @@ func spExpiredCert() *idp.KeyPair {
 	return spExp
 }
 
+var (
+	reissueMu sync.Mutex
+	reissued  = map[string][]byte{}
+)
+
+// reissuedCert returns another certificate over the same RSA key as the SP's (different subject and validity).
+func reissuedCert(pub *rsa.PublicKey) []byte {
+	reissueMu.Lock()
+	defer reissueMu.Unlock()
+	key := pub.N.String()
+	if d, ok := reissued[key]; ok {
+		return d
+	}
+	for _, name := range []string{"sp", "sp-old"} {
+		k := idp.RSAKey(name)
+		if k.PublicKey.N.Cmp(pub.N) == 0 {
+			d := idp.Cert(k, "sp-reissued", world.T0.Add(-72*time.Hour), world.T0.Add(-48*time.Hour)).DER
+			reissued[key] = d
+			return d
+		}
+	}
+	orch.Fatal("xmlenc: no private key known for the SP public key")
+	return nil
+}
+
 // memStore is an X509KeyStore that is not a TLSCertKeyStore.
 type memStore struct {
 	key  *rsa.PrivateKey
@@ -150,6 +175,8 @@ func encOptsFor(in *xInput, rng *mrand.Rand, spCert []byte, pub *rsa.PublicKey) 
 	switch in.Recipient {
 	case "match":
 		o.Recipient = spCert
+	case "samekey":
+		o.Recipient = reissuedCert(pub)
 	case "mismatch":
 		o.Recipient = world.Get().SP2.DER
 	}
